@@ -281,7 +281,7 @@ func (c *Ctx) unlock(m *Value) {
 	s := c.sch()
 	st := s.mu[m]
 	if st == nil || !st.held {
-		panic(&goPanic{what: "sync: unlock of unlocked mutex", pos: c.curPos})
+		panic(&goPanic{what: "sync: unlock of unlocked mutex", pos: c.cp()})
 	}
 	me := s.me()
 	st.held = false
